@@ -126,6 +126,10 @@ def faults(r, nl):
     add("illegal-ternary", "% for i in z:" + nl + "t" + nl + "% elif q:" + nl + "% endfor" + nl, "Syntax", off=2, where="linestart", col="control")
     add("duplicate-block", '<%block name="dup">a</%block>' + nl + '<%block name="dup">b</%block>', "Compile", off=1, col="line-start")
     add("named-block-in-def", '<%def name="h()">' + nl + '<%block name="inner">a</%block></%def>', "Compile", off=1, col="line-start")
+    # a block that may not stand where it stands, several lines below the tag that encloses it
+    add("anon-block-in-namespace", '<%namespace name="nsb_">' + nl + '<%def name="fine_()">ok</%def>' + nl + "<%block>a</%block>" + nl + "</%namespace>", "Compile", off=2, col="line-start")
+    add("named-block-in-call", '<%call expr="fcall_()">' + nl + "text" + nl + '<%block name="incall_">a</%block></%call>', "Compile", off=2, col="line-start")
+    add("named-block-in-nested-def", '<%def name="h2_()">' + nl + '<%def name="h3_()">' + nl + nl + '<%block name="inner2_">a</%block></%def></%def>', "Compile", off=3, col="line-start")
     add("missing-attribute", "<%include/>", "Compile")
     add("missing-def-name", "<%def>x</%def>", "Compile")
     add("illegal-attribute", '<%def name="k()" bogus="1">x</%def>', "Compile")
